@@ -29,6 +29,7 @@ RULE = (
     "distinct = distinct case JSON. Fixed part: every chart of every corpus simfile (per player) x 5 include sets x 30 "
     "combinations + counts"
 )
+RULE += " " + "Added after the seeding rounds: the stream is handed over as list, one-shot iterator, generator and NoteData object in rotation; include_note_types is the caller's own object (plain set or frozenset), the same object for every call on a stream, and must come back unchanged."
 ASSUMPTIONS = [
     "reference model vf/model_group.py (two passes, written from the documentation and the property statement)",
     "streams have unique (beat, column) positions, as every stream read from note data has",
